@@ -638,10 +638,18 @@ fn replay(args: &Args) {
         }
         // a submitter starts waiting for the result mutex while its holder is inside a critical
         // section without schedule point: not forceable on one thread (see NOTES.md)
-        if b["steps"].as_array().expect("steps").iter().any(|st| st["hp"] == false) {
-            out.count("skipped_holder_not_parked");
-            continue;
+        let all_steps = b["steps"].as_array().expect("steps");
+        let forceable = all_steps.iter().position(|st| st["hp"] == false).unwrap_or(all_steps.len());
+        if forceable < all_steps.len() {
+            if b["kind"] == "prefix" {
+                // (the forceable part is the prefix of another exported state)
+                out.count("skipped_holder_not_parked");
+                continue;
+            }
+            // complete behaviour: force what can be forced, then run freely
+            out.count("truncated_at_holder_not_parked");
         }
+        let truncated = forceable < all_steps.len();
         out.eval();
         let calls = calls_of(b);
         let cap = b["cfg"]["cap"].as_u64().unwrap_or(128) as usize;
@@ -652,7 +660,7 @@ fn replay(args: &Args) {
         let mut mismatch: Option<String> = None;
 
 
-        for (k, st) in b["steps"].as_array().expect("steps").iter().enumerate() {
+        for (k, st) in all_steps[..forceable].iter().enumerate() {
             let actor = st["actor"].as_str().unwrap();
             let act = st["act"].as_str().unwrap();
             out.count(&format!("act_{act}"));
@@ -753,7 +761,7 @@ fn replay(args: &Args) {
         if ok {
             if let Some(m) = mismatch {
                 out.violation("C14", "spec-mismatch", m, b.clone());
-            } else if b["kind"] == "full" {
+            } else if b["kind"] == "full" && !truncated {
                 // complete behaviour: the spec's final verdict per submitter must be the code's
                 let want: Vec<String> =
                     b["stuck"].as_array().map(|v| v.iter().map(|x| x.as_str().unwrap().to_string()).collect()).unwrap_or_default();
